@@ -124,6 +124,12 @@ pub enum VOp {
     AccrueVenue { vb: u16, ppm: u32 },
     /// the venue writes off ppm millionths of its borrowers' debt (the exchange rate FALLS, possibly below par)
     VenueLoss { vb: u16, ppm: u32 },
+    /// substitution probe on a copy of the world: a well-formed venue deposit / withdraw of user u on venue bank vb
+    /// (positive control: it must commit), then the same instruction with every account slot that marginfi itself binds to
+    /// the bank (bank, liquidity vault, vault authority, mint, the three integration accounts) replaced - one at a time
+    /// and all at once - by the corresponding account of ANOTHER bank of the same venue kind: a foreign group's, and
+    /// another bank of the home group's. Nothing of it may commit.
+    Subst { u: u16, vb: u16, withdraw: bool, amt: u64 },
     Wait { secs: u32 },
     RefreshVenue { vb: u16, direct: bool },
     Price { b: u16, num: u16, conf_bps: u16 },
@@ -152,6 +158,7 @@ impl VOp {
             VOp::OrdDeposit { .. } => "ord_deposit",
             VOp::AccrueVenue { .. } => "accrue_venue",
             VOp::VenueLoss { .. } => "venue_loss",
+            VOp::Subst { .. } => "subst",
             VOp::Wait { .. } => "wait",
             VOp::RefreshVenue { .. } => "refresh_venue",
             VOp::Price { .. } => "price",
@@ -179,6 +186,11 @@ pub struct VCase {
     /// (Kamino: per-market flag of the fake; Solend: the fake's process-wide `MathMode::Wad`)
     pub exact: bool,
     pub ops: Vec<VOp>,
+    /// a second ("foreign") group exists - creating a group is permissionless - with one venue bank of every venue kind
+    /// the home group uses (own mint, own vaults, own venue accounts, all consistent with each other): the substitution
+    /// probes (`VOp::Subst`) use its banks as substitutes
+    #[serde(default)]
+    pub foreign: bool,
 }
 
 // ------------------------------------------------------------------------------------------
@@ -281,6 +293,7 @@ pub fn op_strategy(fam: &'static str, level: u8) -> BoxedStrategy<VOp> {
         (w(4, &["c04"], 0), (i(), prop_oneof![3 => 500u16..1000, 1 => Just(1000u16), 3 => 1000u16..2000, 1 => 10u16..500], prop_oneof![2 => Just(0u16), 3 => 1u16..100, 2 => 100u16..300]).prop_map(|(b, num, conf_bps)| VOp::Price { b, num, conf_bps }).boxed()),
     ];
     v.push((w(2, &["c03", "c04"], 1), (i(), prop_oneof![2 => 1u32..1000, 3 => 1000u32..100_000, 3 => 100_000u32..=1_000_000]).prop_map(|(vb, ppm)| VOp::VenueLoss { vb, ppm }).boxed()));
+    v.push((w(2, &["c08"], 4), (i(), i(), any::<bool>(), 1u64..1_000_000).prop_map(|(u, vb, withdraw, amt)| VOp::Subst { u, vb, withdraw, amt }).boxed()));
     v.push((w(4, &[], 1), (i(), amt_rel(), prop::bool::weighted(0.3), refresh()).prop_map(|(u, (amt, rel), all, refresh)| VOp::Repay { u, amt, rel, all, refresh }).boxed()));
     v.push((w(3, &[], 1), (i(), i(), abs_amount()).prop_map(|(u, b, amt)| VOp::OrdDeposit { u, b, amt }).boxed()));
     v.push((w(3, &["c17"], 2), (i(), amt_rel()).prop_map(|(vb, (amt, rel))| VOp::Limit { vb, amt, rel }).boxed()));
@@ -348,12 +361,14 @@ pub fn case_strategy(fam: &'static str, exact: bool, level: u8) -> impl Strategy
         prop_oneof![Just(25_000u32), Just(50_000u32), Just(80_000u32)],
         head_strategy(fam, level),
         prop::collection::vec(op_strategy(fam, level), 8..=40),
+        prop::bool::weighted(if fam == "c08" { 0.6 } else { 0.15 }),
     )
-        .prop_map(move |(ord, venues, liq_max_fee, head, ops)| {
+        .prop_map(move |(ord, venues, liq_max_fee, head, ops, foreign)| {
             let mut all = head;
             all.extend(ops);
             all.truncate(40);
-            VCase { ord, venues, liq_max_fee, exact, ops: all }
+            let foreign = foreign && venues.len() <= 3 && level >= 4;
+            VCase { ord, venues, liq_max_fee, exact, ops: all, foreign }
         })
 }
 
@@ -436,6 +451,10 @@ pub struct Runner {
     pub group_knows: Option<i64>,
     pub step: usize,
     pub findings: Vec<Finding>,
+    /// banks of the home group (ordinary + venue); bank indices >= n_home belong to the foreign group
+    pub n_home: usize,
+    /// bank indices of the foreign group's venue banks
+    pub foreign: Vec<usize>,
     snap: Snap,
 }
 
@@ -488,58 +507,48 @@ impl Runner {
         let mut kind: Vec<Option<u8>> = vec![None; n_ord];
         let mut venues = vec![];
         for v in &case.venues {
-            let bs = venue_bank_spec(v);
-            let c0: u64 = 10u64.pow(v.scale_exp as u32) + (v.ragged % 1_000_003) as u64;
-            let l_total: u128 = c0 as u128 * (1_000_000 + v.rate_ppm as u128) / 1_000_000 + (v.ragged % 977) as u128;
-            let avail = (l_total * 3 / 5) as u64;
-            let borrowed = (l_total - avail as u128) as u64;
-            let init_amount = 10 + (v.ragged % 991) as u64;
-            let bi = match v.kind {
-                1 => {
-                    let vsp = vk::VenueSpec { other_available: avail, other_borrowed: borrowed, other_collateral: c0, init_amount, lenient_refresh: false, exact_math: case.exact };
-                    let bi = vk::add_bank_with(&mut w, &bs, &vsp)?;
-                    // ragged fractional bits in borrowed_amount_sf
-                    let vb = vk::venue_bank(&w, bi);
-                    vk::accrue(&mut w.vm, &vb, (v.ragged % 1009) as u64);
-                    bi
-                }
-                2 => {
-                    let seed = vs::ReserveSeed {
-                        available: avail,
-                        borrowed_wads: borrowed as u128 * vs::WAD + (v.ragged as u128 * 1_000_003) % vs::WAD,
-                        fees_wads: (v.ragged % 1013) as u128 * vs::WAD / 7,
-                        ctoken_supply: c0,
-                        init_amount,
-                    };
-                    vs::add_bank_with(&mut w, &bs, &seed)?
-                }
-                _ => {
-                    let ci = vd::CUM_INTEREST_ONE * (1_000_000 + v.rate_ppm as u128) / 1_000_000 + (v.ragged % 1_000_003) as u128;
-                    let opts = vd::DriftOpts { cumulative_deposit_interest: ci, init_amount, ..Default::default() };
-                    vd::add_bank_ext(&mut w, &bs, &opts)?
-                }
-            };
-            if v.haircut_ppm > 0 {
-                match v.kind {
-                    1 => {
-                        let vb = vk::venue_bank(&w, bi);
-                        vk::loss(&mut w.vm, &vb, v.haircut_ppm as u64)
-                    }
-                    2 => {
-                        let vb = vs::venue(&w, bi);
-                        vs::loss(&mut w.vm, &vb, v.haircut_ppm as u64)
-                    }
-                    _ => {
-                        let vb = vd::venue(&w, bi);
-                        vd::loss(&mut w.vm, &vb, v.haircut_ppm as u64)
-                    }
-                }
-            }
+            let bi = Self::add_venue_bank(&mut w, v, case.exact)?;
             while kind.len() < bi {
                 kind.push(None);
             }
             kind.push(Some(v.kind));
             venues.push(bi);
+        }
+        let n_home = w.banks.len();
+        let mut foreign = vec![];
+        if case.foreign {
+            // the foreign group: same admin key (any key may create a group and is then its admin), one bank per venue kind
+            let home = w.group;
+            let g2 = kp("vc_foreign_group", 0);
+            let ix = mfi_ix(
+                anchor_lang::ToAccountMetas::to_account_metas(&marginfi::accounts::MarginfiGroupInitialize { marginfi_group: g2, admin: w.roles.admin, fee_state: w.fee_state, system_program: solana_program::system_program::ID }, Some(true)),
+                anchor_lang::InstructionData::data(&marginfi::instruction::MarginfiGroupInitialize {}),
+            );
+            w.vm.exec(&ix).map_err(|e| format!("foreign group init: {e:?}"))?;
+            w.group = g2;
+            let mut seen = [false; 3];
+            let mut r: Result<(), String> = Ok(());
+            for v in &case.venues {
+                if seen[v.kind as usize % 3] {
+                    continue;
+                }
+                seen[v.kind as usize % 3] = true;
+                match Self::add_venue_bank(&mut w, v, case.exact) {
+                    Ok(bi) => {
+                        while kind.len() < bi {
+                            kind.push(None);
+                        }
+                        kind.push(Some(v.kind));
+                        foreign.push(bi);
+                    }
+                    Err(e) => {
+                        r = Err(format!("foreign bank: {e}"));
+                        break;
+                    }
+                }
+            }
+            w.group = home;
+            r?;
         }
         let nb = w.banks.len();
         let mut stranger_tok = vec![];
@@ -589,10 +598,64 @@ impl Runner {
             group_knows: None,
             step: 0,
             findings: vec![],
+            n_home,
+            foreign,
             snap: Snap { banks: vec![], accts: vec![] },
         };
         r.snap = r.take_snap();
         Ok(r)
+    }
+
+    /// one venue bank of the CURRENT `w.group` from its spec (real `lending_pool_add_bank_<venue>` + `<venue>_init_*`)
+    fn add_venue_bank(w: &mut World, v: &VSpec, exact: bool) -> Result<usize, String> {
+            let bs = venue_bank_spec(v);
+            let c0: u64 = 10u64.pow(v.scale_exp as u32) + (v.ragged % 1_000_003) as u64;
+            let l_total: u128 = c0 as u128 * (1_000_000 + v.rate_ppm as u128) / 1_000_000 + (v.ragged % 977) as u128;
+            let avail = (l_total * 3 / 5) as u64;
+            let borrowed = (l_total - avail as u128) as u64;
+            let init_amount = 10 + (v.ragged % 991) as u64;
+            let bi = match v.kind {
+                1 => {
+                    let vsp = vk::VenueSpec { other_available: avail, other_borrowed: borrowed, other_collateral: c0, init_amount, lenient_refresh: false, exact_math: exact };
+                    let bi = vk::add_bank_with(w, &bs, &vsp)?;
+                    // ragged fractional bits in borrowed_amount_sf
+                    let vb = vk::venue_bank(w, bi);
+                    vk::accrue(&mut w.vm, &vb, (v.ragged % 1009) as u64);
+                    bi
+                }
+                2 => {
+                    let seed = vs::ReserveSeed {
+                        available: avail,
+                        borrowed_wads: borrowed as u128 * vs::WAD + (v.ragged as u128 * 1_000_003) % vs::WAD,
+                        fees_wads: (v.ragged % 1013) as u128 * vs::WAD / 7,
+                        ctoken_supply: c0,
+                        init_amount,
+                    };
+                    vs::add_bank_with(w, &bs, &seed)?
+                }
+                _ => {
+                    let ci = vd::CUM_INTEREST_ONE * (1_000_000 + v.rate_ppm as u128) / 1_000_000 + (v.ragged % 1_000_003) as u128;
+                    let opts = vd::DriftOpts { cumulative_deposit_interest: ci, init_amount, ..Default::default() };
+                    vd::add_bank_ext(w, &bs, &opts)?
+                }
+            };
+            if v.haircut_ppm > 0 {
+                match v.kind {
+                    1 => {
+                        let vb = vk::venue_bank(w, bi);
+                        vk::loss(&mut w.vm, &vb, v.haircut_ppm as u64)
+                    }
+                    2 => {
+                        let vb = vs::venue(w, bi);
+                        vs::loss(&mut w.vm, &vb, v.haircut_ppm as u64)
+                    }
+                    _ => {
+                        let vb = vd::venue(w, bi);
+                        vd::loss(&mut w.vm, &vb, v.haircut_ppm as u64)
+                    }
+                }
+            }
+            Ok(bi)
     }
 
     fn kind_name(&self, bi: usize) -> &'static str {
@@ -1465,6 +1528,117 @@ impl Runner {
         st.label(&format!("ok:venue_loss:{}:{}", self.kind_name(bi), if rate < par { "below-par" } else { "at-or-above-par" }));
     }
 
+    /// the account keys marginfi itself binds to a bank in the venue instructions, with a name each
+    fn bank_bound_keys(&self, bi: usize) -> Vec<(&'static str, Pubkey)> {
+        let info = &self.w.banks[bi];
+        let b = read_bank(&self.w.vm, &info.key);
+        vec![("bank", info.key), ("liquidity_vault", b.liquidity_vault), ("liquidity_vault_authority", info.lv_auth), ("mint", b.mint), ("integration_acc_1", b.integration_acc_1), ("integration_acc_2", b.integration_acc_2), ("integration_acc_3", b.integration_acc_3)]
+    }
+
+    fn op_subst(&mut self, u: u16, vb: u16, withdraw: bool, amt: u64, st: &mut Stats) {
+        let ui = idx(u, N_ACTORS);
+        let acct = self.acct[ui];
+        let usr = self.w.users[ui].clone();
+        let held = self.venues_held(&self.w.vm, &acct);
+        let hb = if withdraw {
+            if held.is_empty() {
+                st.label("skip:subst:no-position");
+                return;
+            }
+            held[idx(vb, held.len())]
+        } else {
+            self.venues[idx(vb, self.venues.len())]
+        };
+        let k = self.kind[hb];
+        let kn = self.kind_name(hb);
+        if self.flags(&acct) & (ACCOUNT_FROZEN | ACCOUNT_DISABLED) != 0 || self.state[hb] != 1 || self.pause_in_force() || self.pause_expired_unpropagated() {
+            st.label("skip:subst:gated");
+            return;
+        }
+        // substitutes: the foreign group's bank of this kind, another home bank of this kind
+        let mut subs: Vec<(&'static str, usize)> = vec![];
+        if let Some(fb) = self.foreign.iter().find(|b| self.kind[**b] == k) {
+            subs.push(("foreign-group", *fb));
+        }
+        if let Some(ob) = self.venues.iter().find(|b| **b != hb && self.kind[**b] == k) {
+            subs.push(("other-bank", *ob));
+        }
+        if subs.is_empty() {
+            st.label("skip:subst:no-substitute");
+            return;
+        }
+        let build = |s: &Runner, bi: usize| -> Instruction {
+            if withdraw {
+                s.ix_vwithdraw(bi, &acct, 1, false, usr.auth, usr.tokens[bi], s.w.risk_metas(&acct, None, None))
+            } else {
+                s.ix_vdeposit(bi, &acct, usr.auth, usr.tokens[bi], amt.max(1))
+            }
+        };
+        let home_ix = build(self, hb);
+        let mut prefix = self.refresh_for(&[acct], Some(hb));
+        for (_, sb) in &subs {
+            prefix.extend(self.refresh_ixs(*sb));
+        }
+        // positive control
+        {
+            let mut vm = self.w.vm.clone();
+            let mut tx = prefix.clone();
+            tx.push(home_ix.clone());
+            if !vm.exec_tx(&tx).ok {
+                st.label(&format!("skip:subst:baseline-failed:{kn}"));
+                return;
+            }
+        }
+        st.label(&format!("ok:subst-baseline:{}:{kn}", if withdraw { "withdraw" } else { "deposit" }));
+        let bound = self.bank_bound_keys(hb);
+        for (sname, sb) in subs {
+            let sub_ix = build(self, sb);
+            if sub_ix.accounts.len() != home_ix.accounts.len() && !withdraw {
+                st.label("skip:subst:layout-differs");
+                continue;
+            }
+            let n = home_ix.accounts.len().min(sub_ix.accounts.len());
+            let mut variants: Vec<(String, Instruction)> = vec![];
+            let mut cluster = home_ix.clone();
+            let mut any = false;
+            for p in 0..n {
+                let hk = home_ix.accounts[p].pubkey;
+                let Some((slot, _)) = bound.iter().find(|(_, key)| *key == hk) else { continue };
+                if sub_ix.accounts[p].pubkey == hk {
+                    continue;
+                }
+                let mut v = home_ix.clone();
+                v.accounts[p].pubkey = sub_ix.accounts[p].pubkey;
+                cluster.accounts[p].pubkey = sub_ix.accounts[p].pubkey;
+                any = true;
+                variants.push((format!("{slot}"), v));
+            }
+            if any {
+                variants.push(("all-bank-bound-slots".into(), cluster));
+            }
+            // the substitute bank with ALL of its own consistent accounts (only group, marginfi account and authority are home)
+            variants.push(("whole-bank".into(), sub_ix));
+            for (slot, v) in variants {
+                let mut vm = self.w.vm.clone();
+                let mut tx = prefix.clone();
+                tx.push(v);
+                st.eval("c08");
+                let ok = vm.exec_tx(&tx).ok;
+                st.label(&format!("c08:subst:{sname}:{slot}:{}", if ok { "accepted" } else { "refused" }));
+                if ok && (sname == "foreign-group" || slot != "whole-bank") {
+                    // (the whole of ANOTHER HOME bank is simply a legitimate deposit into that bank)
+                    self.find(
+                        "c08",
+                        &format!("substitution-accepted:{sname}:{slot}:{kn}"),
+                        format!("{kn}_{} of user {ui} on bank #{hb} committed with {slot} replaced by the one of bank #{sb} ({sname})", if withdraw { "withdraw" } else { "deposit" }),
+                    );
+                } else if !ok {
+                    st.witness("c08:substitution-refused");
+                }
+            }
+        }
+    }
+
     fn set_price_scaled(&mut self, bi: usize, num_pm: u64, conf_bps: u16) {
         let f = self.feeds[bi].clone();
         let mant = ((self.base_mant[bi] as i128 * num_pm as i128) / 1000).clamp(1, i64::MAX as i128 / 4) as i64;
@@ -1473,7 +1647,7 @@ impl Runner {
     }
 
     fn op_price(&mut self, b: u16, num: u16, conf_bps: u16, st: &mut Stats) {
-        let bi = idx(b, self.w.banks.len());
+        let bi = idx(b, self.n_home);
         self.set_price_scaled(bi, num as u64, conf_bps);
         st.label("ok:price");
     }
@@ -1626,6 +1800,7 @@ impl Runner {
             VOp::OrdDeposit { u, b, amt } => self.op_ord_deposit(*u, *b, *amt, st),
             VOp::AccrueVenue { vb, ppm } => self.op_accrue(*vb, *ppm, st),
             VOp::VenueLoss { vb, ppm } => self.op_loss(*vb, *ppm, st),
+            VOp::Subst { u, vb, withdraw, amt } => self.op_subst(*u, *vb, *withdraw, *amt, st),
             VOp::Wait { secs } => self.op_wait(*secs, st),
             VOp::RefreshVenue { vb, direct } => self.op_refresh(*vb, *direct, st),
             VOp::Price { b, num, conf_bps } => self.op_price(*b, *num, *conf_bps, st),
